@@ -2,7 +2,7 @@
 # tools/stress.sh <from-seed> <to-seed> <ids...> : run the quick tier under several seeds, report any non-zero exit.
 cd "$(dirname "$0")/.." || exit 2
 A=$1; B=$2; shift 2
-[ -n "$VP_RUN_REPO" ] && export VERIF_REPO="$VP_RUN_REPO"
+[ -n "$VP_RUN_REPO" ] && export VERIF_REPO="$VP_RUN_REPO" GOCACHE="$PWD/.work/gocache"
 bad=0
 for seed in $(seq $A $B); do
   for id in "$@"; do
